@@ -91,13 +91,28 @@ impl<L: KVVStore> KVVStore for CloudKVVStore<L> {
     type Iter = L::Iter;
 
     fn put(&self, key: &str, value: Vec<u8>) -> Result<(), Error> {
-        let version = self.local.get_version(key)?.map(|v| v + 1).unwrap_or(0);
+        let next_version = self.local.get_version(key)?.map(|v| v + 1).unwrap_or(0);
+        // never go below a version already staged for this key in this transaction
+        let staged_version = self
+            .commit_log
+            .lock()
+            .unwrap()
+            .as_ref()
+            .and_then(|log| log.get(key).map(|(v, _)| *v));
+        let version = staged_version.map_or(next_version, |v| v.max(next_version));
         self.put_with_version(key, version, value)
     }
 
     fn put_with_version(&self, key: &str, version: u64, value: Vec<u8>) -> Result<(), Error> {
         let mut commit_log_opt = self.commit_log.lock().unwrap();
         let commit_log = commit_log_opt.as_mut().expect("not in transaction");
+        if let Some((staged_version, _)) = commit_log.get(key) {
+            if version < *staged_version {
+                error!("version mismatch for {}: {} < staged {}", key, version, staged_version);
+                // version cannot go backwards within a transaction either
+                return Err(Error::VersionMismatch);
+            }
+        }
         let existing_version = self.local.get_version(key)?;
         if let Some(v) = existing_version {
             if version < v {
